@@ -290,6 +290,50 @@ def main(tier, seed):
                         handle = db.measurement("m")
                         empty_handle = db.measurement("no-such-measurement")
                         db.count(q_none)
+        # the same arguments handed over BY POSITION (the documented order: query, time, measurement, tags, fields), and tag / field sets that are
+        # Mappings of another class than dict - OrderedDict, defaultdict, a read-only proxy, ChainMap, UserDict - holding an ill-typed value
+        import collections
+        import types
+        pos_of = {"time": 0, "measurement": 1, "tags": 2, "fields": 3}
+        wrappers = [("OrderedDict", collections.OrderedDict), ("defaultdict", lambda d: collections.defaultdict(lambda: None, d)), ("MappingProxyType", lambda d: types.MappingProxyType(dict(d))),
+                    ("ChainMap", lambda d: collections.ChainMap(dict(d))), ("UserDict", collections.UserDict)]
+        calls = []
+        for later in order:
+            for v in bad_static[later]:
+                args = [None] * pos_of[later] + [v]
+                calls += [(f"db.update(query, {', '.join(['None'] * pos_of[later] + ['<ill-typed ' + later + '>'])})", v, lambda args=args: db.update(q_all, *args)),
+                          (f"db.update_all({', '.join(['None'] * pos_of[later] + ['<ill-typed ' + later + '>'])})", v, lambda args=args: db.update_all(*args)),
+                          (f"measurement.update(query, ...positional {later})", v, lambda args=args: handle.update(q_all, *args)),
+                          (f"measurement.update_all(...positional {later})", v, lambda args=args: handle.update_all(*args))]
+        for slot, badmaps in (("tags", [{"k": 1}, {"k": "v", "z": 1.5}, {5: "x"}, {"k": b"v"}]), ("fields", [{"a": "n/a"}, {"a": 1.0, "z": "3"}, {"a": b"1"}, {"a": [1]}, {"a": True}, {1: 1.0}])):
+            for badmap in badmaps:
+                for wname, w in wrappers:
+                    try:
+                        wv = w(badmap)
+                    except Exception:  # noqa
+                        continue
+                    calls += [(f"Point({slot}=<{wname}>)", wv, lambda wv=wv, slot=slot: tf.Point(time=T0, **{slot: wv})),
+                              (f"point.{slot} = <{wname}>", wv, lambda wv=wv, slot=slot: setattr(tf.Point(time=T0), slot, wv)),
+                              (f"db.update_all({slot}=<{wname}>)", wv, lambda wv=wv, slot=slot: db.update_all(**{slot: wv})),
+                              (f"db.update(query, {slot}=<{wname}>)", wv, lambda wv=wv, slot=slot: db.update(q_all, **{slot: wv})),
+                              (f"db.update_all({slot}=lambda: <{wname}>)", wv, lambda wv=wv, slot=slot: db.update_all(**{slot: (lambda old: wv)}))]
+        for name, v, call in calls:
+            before = [M.canon_point(x) for x in db.all(sorted=False)]
+            r = raises(call)
+            n_checks += 1
+            bad = stored_ok(tf, db)
+            after = [M.canon_point(x) for x in db.all(sorted=False)]
+            if bad:
+                note(name, v, "an ill-typed value was stored", {"stored": bad[:3]})
+            elif r is None:
+                note(name, v, "an ill-typed value was accepted")
+            elif after != before:
+                note(name, v, "a rejected call changed the stored contents")
+            if bad or after != before:
+                if csv:
+                    db.close()
+                db = fresh(csv)
+                handle = db.measurement("m")
         # an ill-typed tags / fields argument NEXT TO unset_* arguments that name the same key, in the same or in the other namespace (promoting a
         # field to a tag: tags={k: v}, unset_fields=k): what the same call unsets elsewhere does not excuse the value
         db = fresh(csv)
